@@ -333,6 +333,24 @@ type vHist struct {
 	// L2 bookkeeping, all from the driver's own observations of the real disk
 	stored     map[Digest]map[int64]bool // sizes under which a store of d was acknowledged
 	lastWriter map[Digest]string         // kind of the op that last changed d's file
+	linked     map[string]Digest         // lower-cased name -> digest of the last acknowledged Link (cleared by Unlink / refused Link)
+	linkedWhy  map[string]string         // classification of that Link by the driver's own observations
+	acked      map[Digest]bool           // a non-empty store of d was acknowledged and no later Put/chunk of d failed
+}
+
+// checkStored is put_ok_retrievable evaluated on the real code: right after an acknowledged store of d under
+// `size` (> 0) the blob is retrievable: Get ok, Size = size, real sha256 of the file = d.
+func (h *vHist) checkStored(step int, via string, d Digest, size int64) {
+	if size <= 0 {
+		return // zero-length blobs are by design never "present" (TestPutZero / TestPutGetZero)
+	}
+	h.out.Count("l2_store_checked_" + via)
+	e, err := h.c.Get(d)
+	b, _ := h.blobBytes(d)
+	if err != nil || e.Size != size || vDigestOf(b) != d {
+		h.out.L2("store-ok-not-retrievable", h.caseLine,
+			fmt.Sprintf("via=%s step=%d digest=%s size=%d get=%v,%d file=%s last-writer=%s", via, step, d.Short(), size, err, e.Size, zzverif.Hex(b), h.lastWriter[d]))
+	}
 }
 
 func (h *vHist) blobBytes(d Digest) ([]byte, bool) {
@@ -436,40 +454,53 @@ func (h *vHist) run(ops []vOp) (results []string, keys map[Digest]bool) {
 		case "put":
 			if res == "ok" {
 				h.noteStored(o.d, o.size)
-				// (B) a successful store makes the blob retrievable (zero-length blobs are by design never
-				// "present": TestPutZero / TestPutGetZero pin that)
-				if o.size > 0 {
-					e, err := h.c.Get(o.d)
-					if err != nil || e.Size != o.size {
-						h.out.L2("put-ok-not-retrievable", h.caseLine, fmt.Sprintf("step=%d size=%d get=%v,%d", i, o.size, err, e.Size))
-					}
+				// (B) a successful store makes the blob retrievable; a full-size holey file left by Chunker.Put is
+				// answered from the size shortcut: that is finding F10-cache, reported by checkAllPresent
+				if h.lastWriter[o.d] != "chunk" {
+					h.checkStored(i, "put", o.d, o.size)
 				}
+				h.acked[o.d] = o.size > 0 // Put(d, _, 0) = ok truncates a longer file by design (TestPutZero)
+			} else {
+				h.acked[o.d] = false // a refused Put legitimately truncates the file
 			}
 		case "import":
 			if dg != nil {
 				h.noteStored(*dg, o.size)
 				want := bytes.Join(o.s.chunks, nil)
-				b, _ := h.blobBytes(*dg)
-				if vDigestOf(want) != *dg || !bytes.Equal(b, want) {
-					h.out.L2("import-wrong-content", h.caseLine, fmt.Sprintf("step=%d", i))
+				if vDigestOf(want) != *dg {
+					h.out.L2("import-wrong-digest", h.caseLine, fmt.Sprintf("step=%d", i))
 				}
+				h.checkStored(i, "import", *dg, o.size)
 				if o.size > 0 {
-					if e, err := h.c.Get(*dg); err != nil || e.Size != o.size {
-						h.out.L2("put-ok-not-retrievable", h.caseLine, fmt.Sprintf("step=%d import size=%d get=%v,%d", i, o.size, err, e.Size))
-					}
+					h.acked[*dg] = true
 				}
 			}
 		case "chunk":
+			h.acked[o.d] = false
 			if res == "ok" {
 				h.noteStored(o.d, o.size)
 			}
+		case "unlink":
+			delete(h.linked, h.linkKey(o.name))
 		case "link":
+			delete(h.linked, h.linkKey(o.name))
 			if res == "ok" {
+				why := "plain"
+				switch {
+				case beforeOK && len(before) == 0 && h.acked[o.d]:
+					why = "acked-blob-zero-length"
+				case beforeOK && len(before) == 0:
+					why = "blob-file-zero-length"
+				}
+				h.linked[h.linkKey(o.name)], h.linkedWhy[h.linkKey(o.name)] = o.d, why
 				// (C) a name is linked only to a manifest blob that exists (by the cache's own Get)
 				if getBeforeErr != nil {
 					detail := "blob-file-missing"
 					if beforeOK && len(before) == 0 {
 						detail = "blob-file-zero-length"
+						if h.acked[o.d] {
+							detail = "acked-blob-zero-length"
+						}
 					}
 					h.out.L2("link-absent-blob", h.caseLine, fmt.Sprintf("%s step=%d name=%s", detail, i, o.name))
 				}
@@ -478,6 +509,8 @@ func (h *vHist) run(ops []vOp) (results []string, keys map[Digest]bool) {
 				if err != nil || vDigestOf(now) != o.d {
 					detail := "other"
 					switch {
+					case beforeOK && len(before) == 0 && h.acked[o.d]:
+						detail = "acked-blob-zero-length"
 					case beforeOK && len(before) == 0:
 						detail = "blob-file-zero-length"
 					case manBeforeOK && beforeOK && len(manBefore) == len(before) && !bytes.Equal(manBefore, before):
@@ -501,9 +534,15 @@ func (h *vHist) run(ops []vOp) (results []string, keys map[Digest]bool) {
 					h.out.L2("resolve-not-hash-of-file", h.caseLine, fmt.Sprintf("step=%d name=%s", i, o.name))
 				}
 				h.noteStored(*dg, int64(len(manBefore)))
-				if len(manBefore) > 0 {
-					if e, err := h.c.Get(*dg); err != nil || e.Size != int64(len(manBefore)) {
-						h.out.L2("put-ok-not-retrievable", h.caseLine, fmt.Sprintf("step=%d resolve get=%v,%d", i, err, e.Size))
+				if h.lastWriter[*dg] != "chunk" {
+					h.checkStored(i, "resolve", *dg, int64(len(manBefore)))
+				}
+				// Link(name, d) = ok earlier, nothing touched the name since ⇒ Resolve(name) = d = sha256(bytes linked)
+				if ld, ok := h.linked[h.linkKey(o.name)]; ok {
+					h.out.Count("l2_link_then_resolve_checked")
+					if ld != *dg {
+						h.out.L2("link-then-resolve-differs", h.caseLine, fmt.Sprintf("%s step=%d name=%s linked=%s resolved=%s",
+							h.linkedWhy[h.linkKey(o.name)], i, o.name, ld.Short(), dg.Short()))
 					}
 				}
 			}
@@ -511,6 +550,11 @@ func (h *vHist) run(ops []vOp) (results []string, keys map[Digest]bool) {
 		h.checkAllPresent(i, o)
 	}
 	return results, keys
+}
+
+// linkKey identifies the manifest a name denotes (case-insensitively), or "" for an invalid name.
+func (h *vHist) linkKey(name string) string {
+	return strings.ToLower(h.manifestFile(name))
 }
 
 func vResClass(res string) string {
@@ -601,6 +645,20 @@ func vGenHist(r *zzverif.Rng) []vOp {
 			vOp{kind: "link", name: name, d: vDigestOf(b)}, vOp{kind: "link", name: strings.ToUpper(name), d: vDigestOf(a)},
 			vOp{kind: "resolve", name: name})
 	}
+	switch r.Intn(10) {
+	case 0, 1: // a failed / partial earlier store of d, then Import of the true bytes, then Get / Link / Resolve
+		c := contents[r.Range(1, len(contents)-1)]
+		d := vDigestOf(c)
+		name := zzverif.Pick(r, vNames[:8])
+		if r.Chance(2, 3) {
+			ops = append(ops, vOp{kind: "put", d: d, size: int64(len(c)), s: vMkScript(r, c, zzverif.Pick(r, []string{"short", "flip", "errk", "long", "other"}), false)})
+		} else if len(c) >= 2 { // a low chunk only: a short file, like a writer that died mid-copy
+			b := int64(r.Intn(len(c) - 1))
+			ops = append(ops, vOp{kind: "chunk", d: d, size: int64(len(c)), start: 0, stop: b, cd: vDigestOf(c[:b+1]), s: vMkScript(r, c[:b+1], "exact", false)})
+		}
+		ops = append(ops, vOp{kind: "import", size: int64(len(c)), s: vMkScript(r, c, zzverif.Pick(r, []string{"exact", "exact1"}), false)},
+			vOp{kind: "get", d: d}, vOp{kind: "link", name: name, d: d}, vOp{kind: "resolve", name: name})
+	}
 	for len(ops) < nops {
 		switch x := r.Intn(100); {
 		case x < 28:
@@ -612,6 +670,9 @@ func vGenHist(r *zzverif.Rng) []vOp {
 			ops = append(ops, vOp{kind: "put", d: d, size: size, s: vMkScript(r, c, zzverif.Pick(r, vScriptKinds), true)})
 		case x < 35:
 			c := r.Bytes(zzverif.Pick(r, []int{0, 1, 7, 12, 5}))
+			if r.Chance(1, 2) {
+				c = zzverif.Pick(r, contents) // a digest that Put / Chunked / an earlier failure may already have touched
+			}
 			s := vMkScript(r, c, zzverif.Pick(r, []string{"exact", "exact", "exact", "short", "long", "errk"}), true)
 			size := int64(len(c))
 			ops = append(ops, vOp{kind: "import", size: size, s: s})
@@ -666,7 +727,7 @@ func vRunHist(t *testing.T, out *zzverif.Out, base string, idx int, caseLine str
 		t.Fatal(err)
 	}
 	defer os.RemoveAll(dir)
-	h := &vHist{t: t, out: out, c: c, dir: dir, caseLine: caseLine, stored: map[Digest]map[int64]bool{}, lastWriter: map[Digest]string{}}
+	h := &vHist{t: t, out: out, c: c, dir: dir, caseLine: caseLine, stored: map[Digest]map[int64]bool{}, lastWriter: map[Digest]string{}, acked: map[Digest]bool{}, linked: map[string]Digest{}, linkedWhy: map[string]string{}}
 	results, keys := h.run(ops)
 	out.Case(vHistLine(ops), strings.Join(results, ";")+" | "+h.dump(keys))
 	out.Count("cases")
@@ -861,8 +922,29 @@ func vRunCrash(t *testing.T, out *zzverif.Out, base string, caseLine string, cc 
 					out.L2("crash-present-wrong-content", line, fmt.Sprintf("%s outcome=%s file=%s", detail, outcome, zzverif.Hex(b)))
 				}
 			}
-			// ... and a retry with the true content repairs or completes it (put only: content known)
-			if cc.op.kind == "put" && outcome == "killed" {
+			// an acknowledged store (child survived, result ok) is retrievable
+			if outcome == "survived" && cc.op.kind != "chunk" && size > 0 {
+				res, _ := os.ReadFile(filepath.Join(dir, "result.txt"))
+				if rs := string(res); rs == "ok" || strings.HasPrefix(rs, "dig:") {
+					out.Count("l2_store_checked_crash_" + cc.op.kind)
+					e, err := c.Get(d)
+					b, _ := os.ReadFile(c.GetFile(d))
+					if err != nil || e.Size != size || vDigestOf(b) != d {
+						out.L2("store-ok-not-retrievable", line, fmt.Sprintf("via=crash-%s init=%s get=%v,%d file=%s", cc.op.kind, cc.init, err, e.Size, zzverif.Hex(b)))
+					}
+				}
+			}
+			// ... and a retry with the true content repairs or completes it (put only: content known);
+			// odd crash points retry through Import, even ones through Put
+			if cc.op.kind == "put" && outcome == "killed" && n%2 == 1 && vDigestOf(cc.content) == d {
+				out.Count("l2_store_checked_crash_retry_import")
+				got, err := c.Import(bytes.NewReader(cc.content), size)
+				e, gerr := c.Get(d)
+				b, _ := os.ReadFile(c.GetFile(d))
+				if err != nil || got != d || gerr != nil || e.Size != size || !bytes.Equal(b, cc.content) {
+					out.L2("store-ok-not-retrievable", line, fmt.Sprintf("via=import-after-crash err=%v get=%v,%d file=%s", err, gerr, e.Size, zzverif.Hex(b)))
+				}
+			} else if cc.op.kind == "put" && outcome == "killed" {
 				content := cc.content
 				if vDigestOf(content) == d {
 					err := c.Put(d, bytes.NewReader(content), size)
